@@ -374,6 +374,14 @@ class Normaliser:
                 if fn0 in VALUE_COMBINATORS and self._desugar_value_combinator(bj, x, fn0):
                     changed = True; inlined.append('desugar:' + fn0)
                     continue
+                if fn0 in ('std::collections::VecDeque::remove', 'std::collections::VecDeque::<T, A>::remove') and len(t.get('args', [])) == 2 and self._is_const_zero(bj, t['args'][1]):
+                    # `queue.remove(0)` is `queue.pop_front()` (a shared `release(slots, index)` helper called with the front index)
+                    self.dissolved.add((strip_generics(c.get('rfn') or c.get('fn') or '?'), t.get('line', 0)))
+                    nm_ = (c.get('rfn') or c.get('fn')).rsplit('::', 1)[0] + '::pop_front'
+                    t['f'] = {'k': {'v': nm_, 'ty': '', 'fn': strip_generics(nm_) if False else nm_, 'fn_inst': nm_, 'targs': c.get('targs', []), 'rfn': nm_, 'rfn_inst': nm_, 'rk': 'item'}}
+                    t['args'] = t['args'][:1]
+                    changed = True; inlined.append('desugar:remove(0)')
+                    continue
                 if fn0 == 'std::mem::replace' and self._desugar_scalar_replace(bj, x):
                     changed = True; inlined.append('desugar:mem::replace(scalar)')
                     self.dissolved.add((strip_generics(c.get('rfn') or c.get('fn') or '?'), t.get('line', 0)))
@@ -699,6 +707,17 @@ class Normaliser:
                                                                   'ops': [{'m': {'l': lf, 'pr': [], 'own': [], 'ty': f_ty}}], 'from_residual': True}, 'line': line}],
                              'term': {'k': 'goto', 't': t['t'], 'line': line}})
         return True
+
+    def _is_const_zero(self, bj, op, depth=0):
+        if 'k' in op:
+            return str(op['k'].get('v', '')).split('_')[0] == '0' and str(op['k'].get('ty', 'usize')) in ('usize', '')
+        if depth > 4:
+            return False
+        pl = op.get('m') or op.get('c')
+        if pl is None or pl.get('pr'):
+            return False
+        ds = self._all_defs(bj, pl['l'])
+        return len(ds) == 1 and ds[0][0] == 'stmt' and ds[0][2]['rv']['k'] == 'use' and self._is_const_zero(bj, ds[0][2]['rv']['op'], depth + 1)
 
     SCALARS = ('usize', 'isize', 'u8', 'u16', 'u32', 'u64', 'u128', 'i8', 'i16', 'i32', 'i64', 'i128', 'bool')
 
